@@ -1,11 +1,14 @@
 import OdlModel.Common
 import OdlModel.Model.CRat
 import OdlModel.Model.OpAlgebra
+import OdlModel.Model.OpDispatch
+import OdlModel.Gen.AlgebraDispatch
 open OdlModel OdlModel.OpAlgebra
 
 /-!
 `expr leaves=<leaf|leaf|…> e=<rpn token|token|…> x=<entries>`
-answers `ok tree=… dom=… ran=… lin=0|1 fn=0|1 ty=… linof=0|1 val=… inp=… den=…` or `raise ty=…`.
+answers `ok tree=… dom=… ran=… lin=0|1 fn=0|1 ty=… linof=0|1 tt=0|1 val=… inp=… den=…` or
+`raise ty=… tt=0|1` (`tt`: the dispatch through the extracted tables gives the same object).
 
 leaf   : `mat~ndom~nran~rows` `scale~n~c` `ident~n` `pow~n~p` `inner~n~y` `l2sq~n` `constf~n~c`
          `zerof~n` `linf~n~y` (leaf id = position)
@@ -180,15 +183,17 @@ def doExpr (l : Line) : Option String := do
     | some lf => lf.2
     | none => fun _ _ => 0
   let ty := typeOf e
+  -- the same expression through the EXTRACTED dispatch tables
+  let viaT := (buildT Gen.AlgebraDispatch.tables env e).map showImpl
   match build env e with
-  | none => some s!"raise ty={showTy ty}"
+  | none => some s!"raise ty={showTy ty} tt={b01 (viaT == none)}"
   | some i =>
     let xv := ofList x
     let n := spDim i.ran
     let val := toList n (run env i xv)
     let inp := toList n (runIn env i xv)
     let d := toList n (den env e xv)
-    some s!"ok tree={showImpl i} dom={showSp i.dom} ran={showSp i.ran} lin={b01 i.lin} fn={b01 i.isFn} ty={showTy ty} linof={b01 (linOf e)} val={showCList val} inp={showCList inp} den={showCList d}"
+    some s!"ok tree={showImpl i} dom={showSp i.dom} ran={showSp i.ran} lin={b01 i.lin} fn={b01 i.isFn} ty={showTy ty} linof={b01 (linOf e)} tt={b01 (viaT == some (showImpl i) && i.linBy Gen.AlgebraDispatch.flagOf == i.lin)} val={showCList val} inp={showCList inp} den={showCList d}"
 
 def handle (l : Line) : Option String :=
   match l.op with
